@@ -178,6 +178,63 @@ macro_rules! api_table {
                     e!("asinh", A, true, |x: &Args| o(t(x.a).asinh())),
                     e!("acosh", A, true, |x: &Args| o(t(x.a).acosh())),
                     e!("atanh", A, true, |x: &Args| o(t(x.a).atanh())),
+                    // every num_traits route (the configurations must agree on these spellings too)
+                    e!("Float::abs", A, true, |x: &Args| o(num_traits::Float::abs(t(x.a)))),
+                    e!("Float::signum", A, true, |x: &Args| o(num_traits::Float::signum(t(x.a)))),
+                    e!("Float::sqrt", A, true, |x: &Args| o(num_traits::Float::sqrt(t(x.a)))),
+                    e!("Float::cbrt", A, true, |x: &Args| o(num_traits::Float::cbrt(t(x.a)))),
+                    e!("Float::exp", A, true, |x: &Args| o(num_traits::Float::exp(t(x.a)))),
+                    e!("Float::exp2", A, true, |x: &Args| o(num_traits::Float::exp2(t(x.a)))),
+                    e!("Float::exp_m1", A, true, |x: &Args| o(num_traits::Float::exp_m1(t(x.a)))),
+                    e!("Float::ln", A, true, |x: &Args| o(num_traits::Float::ln(t(x.a)))),
+                    e!("Float::log2", A, true, |x: &Args| o(num_traits::Float::log2(t(x.a)))),
+                    e!("Float::log10", A, true, |x: &Args| o(num_traits::Float::log10(t(x.a)))),
+                    e!("Float::ln_1p", A, true, |x: &Args| o(num_traits::Float::ln_1p(t(x.a)))),
+                    e!("Float::sin", A, true, |x: &Args| o(num_traits::Float::sin(t(x.a)))),
+                    e!("Float::cos", A, true, |x: &Args| o(num_traits::Float::cos(t(x.a)))),
+                    e!("Float::tan", A, true, |x: &Args| o(num_traits::Float::tan(t(x.a)))),
+                    e!("Float::asin", A, true, |x: &Args| o(num_traits::Float::asin(t(x.a)))),
+                    e!("Float::acos", A, true, |x: &Args| o(num_traits::Float::acos(t(x.a)))),
+                    e!("Float::atan", A, true, |x: &Args| o(num_traits::Float::atan(t(x.a)))),
+                    e!("Float::sinh", A, true, |x: &Args| o(num_traits::Float::sinh(t(x.a)))),
+                    e!("Float::cosh", A, true, |x: &Args| o(num_traits::Float::cosh(t(x.a)))),
+                    e!("Float::tanh", A, true, |x: &Args| o(num_traits::Float::tanh(t(x.a)))),
+                    e!("Float::asinh", A, true, |x: &Args| o(num_traits::Float::asinh(t(x.a)))),
+                    e!("Float::acosh", A, true, |x: &Args| o(num_traits::Float::acosh(t(x.a)))),
+                    e!("Float::atanh", A, true, |x: &Args| o(num_traits::Float::atanh(t(x.a)))),
+                    e!("Float::floor", A, true, |x: &Args| o(num_traits::Float::floor(t(x.a)))),
+                    e!("Float::ceil", A, true, |x: &Args| o(num_traits::Float::ceil(t(x.a)))),
+                    e!("Float::round", A, true, |x: &Args| o(num_traits::Float::round(t(x.a)))),
+                    e!("Float::trunc", A, true, |x: &Args| o(num_traits::Float::trunc(t(x.a)))),
+                    e!("Float::fract", A, true, |x: &Args| o(num_traits::Float::fract(t(x.a)))),
+                    e!("Float::recip", A, true, |x: &Args| o(num_traits::Float::recip(t(x.a)))),
+                    e!("Float::to_degrees", A, true, |x: &Args| o(num_traits::Float::to_degrees(t(x.a)))),
+                    e!("Float::to_radians", A, true, |x: &Args| o(num_traits::Float::to_radians(t(x.a)))),
+                    e!("FloatCore::abs", A, true, |x: &Args| o(num_traits::float::FloatCore::abs(t(x.a)))),
+                    e!("FloatCore::signum", A, true, |x: &Args| o(num_traits::float::FloatCore::signum(t(x.a)))),
+                    e!("FloatCore::floor", A, true, |x: &Args| o(num_traits::float::FloatCore::floor(t(x.a)))),
+                    e!("FloatCore::ceil", A, true, |x: &Args| o(num_traits::float::FloatCore::ceil(t(x.a)))),
+                    e!("FloatCore::round", A, true, |x: &Args| o(num_traits::float::FloatCore::round(t(x.a)))),
+                    e!("FloatCore::trunc", A, true, |x: &Args| o(num_traits::float::FloatCore::trunc(t(x.a)))),
+                    e!("FloatCore::fract", A, true, |x: &Args| o(num_traits::float::FloatCore::fract(t(x.a)))),
+                    e!("FloatCore::recip", A, true, |x: &Args| o(num_traits::float::FloatCore::recip(t(x.a)))),
+                    e!("FloatCore::to_degrees", A, true, |x: &Args| o(num_traits::float::FloatCore::to_degrees(t(x.a)))),
+                    e!("FloatCore::to_radians", A, true, |x: &Args| o(num_traits::float::FloatCore::to_radians(t(x.a)))),
+                    e!("Signed::abs", A, false, |x: &Args| o(num_traits::Signed::abs(&t(x.a)))),
+                    e!("Signed::signum", A, false, |x: &Args| o(num_traits::Signed::signum(&t(x.a)))),
+                    e!("Float::sin_cos", A, true, |x: &Args| { let (s, c) = num_traits::Float::sin_cos(t(x.a)); vec![(s.hi(), s.lo()), (c.hi(), c.lo())] }),
+                    e!("Float::powf", AB, true, |x: &Args| o(num_traits::Float::powf(t(x.a), t(x.b)))),
+                    e!("Float::hypot", AB, true, |x: &Args| o(num_traits::Float::hypot(t(x.a), t(x.b)))),
+                    e!("Float::atan2", AB, true, |x: &Args| o(num_traits::Float::atan2(t(x.a), t(x.b)))),
+                    e!("Float::log", AB, true, |x: &Args| o(num_traits::Float::log(t(x.a), t(x.b)))),
+                    e!("Float::max", AB, true, |x: &Args| o(num_traits::Float::max(t(x.a), t(x.b)))),
+                    e!("Float::min", AB, true, |x: &Args| o(num_traits::Float::min(t(x.a), t(x.b)))),
+                    e!("Float::abs_sub", AB, true, |x: &Args| o(num_traits::Float::abs_sub(t(x.a), t(x.b)))),
+                    e!("FloatCore::max", AB, false, |x: &Args| o(num_traits::float::FloatCore::max(t(x.a), t(x.b)))),
+                    e!("FloatCore::min", AB, false, |x: &Args| o(num_traits::float::FloatCore::min(t(x.a), t(x.b)))),
+                    e!("Signed::abs_sub", AB, true, |x: &Args| o(num_traits::Signed::abs_sub(&t(x.a), &t(x.b)))),
+                    e!("Float::powi", AN, true, |x: &Args| o(num_traits::Float::powi(t(x.a), x.n))),
+                    e!("FloatCore::powi", AN, true, |x: &Args| o(num_traits::float::FloatCore::powi(t(x.a), x.n))),
                     // constants (index n selects)
                     e!("constants", None, false, |x: &Args| {
                         let c = [
